@@ -32,7 +32,7 @@ ASSUMPTIONS = [
     "compared for *consistency*: every option subset must abort alike",
 ]
 BOUND = {
-    "quick": "5 structures x 6 force fields x 4 ffout values (none, AMBER, "
+    "quick": "6 structures x 6 force fields x 4 ffout values (none, AMBER, "
     "CHARMM, one seed-chosen; thorough: all 7) x 32 subsets; "
     "drop-water x 4 structures x 6 force fields x 2 option sets; neutral "
     "termini: 20 residue types x 4 flag subsets x 2 layouts",
@@ -40,7 +40,8 @@ BOUND = {
 }
 FORMAT_OPTS = ["--whitespace", "--keep-chain", "--include-header",
                "--pdb-output=@out:model.pdb", "--apbs-input=@out:apbs.in"]
-STRUCTURES = ["pep_wat", "two_blank", "his_asp", "strand", "titrated"]
+STRUCTURES = ["pep_wat", "two_blank", "his_asp", "strand", "titrated",
+              "pep_wide"]
 
 
 def structure(name):
@@ -49,6 +50,12 @@ def structure(name):
         atoms = build.build_peptide(["SER", "LYS", "GLU", "ALA"])
         atoms.append(build.water((9.0, 9.0, 9.0), 100))
         atoms.append(build.water((-8.0, 6.0, 3.0), 101))
+        return build.pdb_text(atoms), None
+    if name == "pep_wide":
+        # coordinates that fill their eight columns (sign in the first one)
+        atoms = build.build_peptide(["THR", "CYS", "ASN", "ARG"],
+                                    origin=(-250.0, -120.0, 1050.0))
+        atoms.append(build.water((-245.0, -111.0, 1055.0), 100))
         return build.pdb_text(atoms), None
     if name == "two_blank":
         a = build.build_peptide(["ALA", "TYR", "GLY"], chain="")
@@ -179,13 +186,19 @@ def run_dropwater(case):
     atoms = build.build_peptide(seq)
     waters = [build.water((9.0, 9.0, 9.0), 100), build.water((9.0, 12.0, 9.0), 101),
               build.water((-7.0, 5.0, 2.0), 102)]
+    if case.get("records") == "ATOM":
+        for w in waters[:2]:  # modelling tools write waters as ATOM records
+            w["record"] = "ATOM"
+            w["chain"] = "A"
+        waters[1]["res_name"] = "WAT"
     if case["where"] == "end":
         with_w = atoms + waters
     else:  # waters listed first
         with_w = waters + atoms
     a = pipeline.run(build.pdb_text(with_w), opts + ["--drop-water"])
     b = pipeline.run(build.pdb_text(atoms), opts)
-    tag = f"{case['where']}/{ff}/{'+'.join(case['opts']) or '-'}"
+    tag = (f"{case['where']}/{case.get('records', 'HETATM')}/{ff}/"
+           f"{'+'.join(case['opts']) or '-'}")
     if a.ok != b.ok:
         res["violations"].append({"sig": "C09/drop-water/outcome-differs",
                                   "detail": {"a": a.exc, "b": b.exc, "case": tag}})
@@ -194,7 +207,7 @@ def run_dropwater(case):
         if a.pqr_text != b.pqr_text:
             res["violations"].append({
                 "sig": f"C09/drop-water/not-equal-to-water-deleted-input/"
-                       f"waters-{case['where']}",
+                       f"waters-{case['where']}-as-{case.get('records', 'HETATM')}",
                 "detail": {"case": tag, "len_a": len(a.pqr_text),
                            "len_b": len(b.pqr_text)}})
     return res
@@ -293,8 +306,10 @@ def enumerate_cases(tier, seed):
         for opts in ([], ["--noopt"]):
             for where in ("end", "start"):
                 for seq in (["SER", "LYS", "GLU"], ["HIS", "ASN", "TYR"]):
-                    cases.append({"mode": "dropwater", "ff": ff, "opts": opts,
-                                  "where": where, "seq": seq})
+                    for records in ("HETATM", "ATOM"):
+                        cases.append({"mode": "dropwater", "ff": ff,
+                                      "opts": opts, "where": where,
+                                      "seq": seq, "records": records})
     for x in T.AMINO:
         for layout in ("one", "two"):
             cases.append({"mode": "neutral", "x": x, "layout": layout})
